@@ -38,7 +38,7 @@ func retryTemplate(t *Tape) *Prog {
 	p := &Prog{NVars: 4, NSites: 2, NCustom: 1}
 	c := &CustomSpec{ID: 0, NDraw: 1, Max: t.Int("rt.max", 4, 30), Vars: []int{1, 2}}
 	c.FailIf = &Cond{Var: 1, F: 0, Op: OpGE, C: int64(t.Int("rt.thr", 1, c.Max))}
-	c.FKind = []FailKind{FKFatalf, FKPanicStr, FKErrorf, FKIndex}[t.Pick("rt.kind", 4)]
+	c.FKind = []FailKind{FKFatalf, FKPanicStr, FKErrorf, FKIndex, FKErrorf, FKError}[t.Pick("rt.kind", 6)]
 	c.Site = 0
 	c.Body = []*Stmt{{K: SDraw, Var: 2, Gen: &GenSpec{K: "filter_rare", Sub: &GenSpec{K: "smallrange", A: t.Int("rt.dom", 1, 12)}}, Label: "ci0"}}
 	p.Customs = []*CustomSpec{c}
@@ -59,12 +59,40 @@ func retryTemplate(t *Tape) *Prog {
 	return p
 }
 
+// signalSkipTemplate: a state machine one of whose actions draws, signals a non-fatal failure above a threshold and
+// then skips ("not applicable"): the falsifying step is at the same time a rejected one.
+func signalSkipTemplate(t *Tape) *Prog {
+	p := &Prog{NVars: 3, NSites: 1}
+	thr := int64(t.Int("ss.thr", 0, 250))
+	sig := &Stmt{K: SIf, Cond: &Cond{Var: 0, F: 0, Op: OpGE, C: thr}, Body: []*Stmt{
+		{K: SFail, FKind: []FailKind{FKErrorf, FKError, FKFail}[t.Pick("ss.kind", 3)], Site: 0},
+		{K: SSkip, SKind: t.Pick("ss.skip", 3)},
+	}}
+	acts := []Action{
+		{Name: "A", Body: []*Stmt{{K: SDraw, Var: 0, Gen: &GenSpec{K: "uint8"}, Label: "a"}, sig}},
+		{Name: "B", Body: []*Stmt{{K: SDraw, Var: 1, Gen: &GenSpec{K: "smallrange", A: 9}, Label: "b"}}},
+		{Name: "C", Body: []*Stmt{{K: SLog, LogK: 0, LogN: 3}}},
+	}
+	rep := &Stmt{K: SRepeat, Acts: acts, ViaSM: t.Chance("ss.viasm", 30)}
+	if t.Chance("ss.inv", 40) {
+		rep.HasInv = true
+		rep.Inv = []*Stmt{{K: SLog, LogK: 0, LogN: 5}}
+	}
+	if t.Chance("ss.lead", 50) {
+		p.Body = append(p.Body, &Stmt{K: SDraw, Var: 2, Gen: &GenSpec{K: "stringn", A: 4}, Label: "lead"})
+	}
+	p.Body = append(p.Body, rep)
+	return p
+}
+
 func scenarioC01(rc *RunCtx) {
 	t := rc.T
 	pf := failingProfile(t)
 	prog := GenProg(t, pf)
 	if t.Chance("c01.retry_template", 6) {
 		prog = retryTemplate(t)
+	} else if t.Chance("c01.signal_skip_template", 4) {
+		prog = signalSkipTemplate(t)
 	}
 	fl := genFlags(t, 40)
 	cc := genClockChoice(t, fl.ShrinkTime, 4, 2, 2, 6, 1)
